@@ -80,6 +80,34 @@ def run (st : Store) : List Op → Store × List Out
     let (st'', os) := run st' ops
     (st'', o :: os)
 
+/-! ### a login in flight: the two halves of `ptt.Login`
+
+`ptt.Login` = `LoginQuery` (loads the record, decides on the password) followed by `userLogin` → `pwcuLoginSave` →
+`pwcuEnd`, a write-back of the WHOLE record (hash included).  Between the halves other requests may complete
+(schedule point `login.afterQuery`).  `reread` says which record the second half writes back — regenerated from the
+source as `Gen.LoginSave.loginSaveRereads`: a fresh read made by `pwcuStart` inside `pwcuLoginSave` (the hash written
+back is the one stored now: the store is unchanged), or the record the first half loaded. -/
+
+/-- first half: the decision and the hash of the record the login carries from here on. -/
+def loginBegin (st : Store) (u pw : List Nat) : Out × Option (List Nat) :=
+  (ofBool (loginQuery st u pw), lookup st u)
+
+/-- second half (runs only after an accepted first half): the write-back. -/
+def loginEnd (reread : Bool) (st : Store) (u : List Nat) (carried : Option (List Nat)) : Store :=
+  if reread then st else
+  match carried with
+  | some h => (match lookup st u with | some _ => set st u h | none => st)
+  | none => st
+
+/-- a full login of `u` with the operations `mid` completing between its halves; when the first half refuses, the
+login ends there and `mid` simply runs afterwards. -/
+def loginInFlight (reread : Bool) (st : Store) (u pw : List Nat) (mid : List Op) : Store × Out × List Out :=
+  let (o, c) := loginBegin st u pw
+  let (st', os) := run st mid
+  match o with
+  | .ok => (loginEnd reread st' u c, o, os)
+  | _ => (st', o, os)
+
 /-! ### the broken rule, for the witness theorem: remembering the last accepted password per user -/
 
 /-- a `LoginQuery` that first consults a per-user memory of the last accepted password and only then the stored
